@@ -232,13 +232,22 @@ func doSelfTest(verif string, n, seeds int, genSeed int64, keep bool) int {
 		fmt.Fprintf(os.Stderr, "vcheck: instrumented self-test programs do not build:\n%s\n", out)
 		return 1
 	}
-	c := exec.Command(filepath.Join(inst, "simrun"), "-seeds", strconv.Itoa(seeds))
+	c := exec.Command(filepath.Join(inst, "simrun"), "-seeds", strconv.Itoa(seeds), "-digests")
 	c.Env = append(os.Environ(), "GOMAXPROCS=1")
 	simOut, simErr := c.CombinedOutput()
+	// the same schedules again in a second process with real parallelism available: every run
+	// digest (decisions + steps) must be identical
+	c2 := exec.Command(filepath.Join(inst, "simrun"), "-seeds", strconv.Itoa(seeds), "-digests")
+	c2.Env = append(os.Environ(), "GOMAXPROCS=8")
+	simOut2, _ := c2.CombinedOutput()
+	if string(simOut) != string(simOut2) {
+		fmt.Println("selftest: the simulated runs are not deterministic: outputs of two processes (GOMAXPROCS 1 and 8) differ")
+		return 1
+	}
 	bad, runs := 0, 0
 	for _, l := range strings.Split(strings.TrimSpace(string(simOut)), "\n") {
 		i := strings.IndexByte(l, ' ')
-		if i <= 0 {
+		if i <= 0 || strings.HasPrefix(l, "#") {
 			continue
 		}
 		runs++
